@@ -310,29 +310,47 @@ pub mod harness {
         kani::assume(cw >= 1 && cw >= t.width as usize && cw >= f.width as usize);   // apply_context: context width covers both branches
         (c, t, f, cw)
     }
+    /// EVERY well-formed <=64-bit condition value (known, known-1-with-x/z, x/z only): both evaluators select the same branch
+    /// ("some bit is a known 1") and extend it the same way
     #[vp_proof_uf]
     pub fn ct_rt_ternary_agree() {
         let (c, t, f, cw) = ct_rt_inputs();
-        // the two evaluators test the condition differently: run time "some known 1", compile time "to_usize().unwrap_or(0) != 0"
-        // (x/z anywhere -> false branch). They coincide unless the condition has BOTH a known 1 and an x/z bit.
-        kani::assume(!(truth(&c) == Some(true) && c.mask_xz != 0));
         let node = ternary_node(&c, &t, &f, cw, t.signed && f.signed);
         let r = run(&node);
         let e = ct_eval(&c, &t, &f, cw);
         assert!(same(&r, &e), "Ternary: run time {:?}, compile time {:?}; cond = {:?}, true = {:?}, false = {:?}, width = {}", r, e, c, t, f, cw);
         std::mem::forget(node);
     }
-    /// must FAIL: the restriction on the condition above is necessary (e.g. cond = 2'b1x: run time takes the true branch - IEEE 1800:
-    /// a vector with a known 1 is true - compile time takes the false branch)
+    /// must FAIL (vacuity): a condition with a known 1 AND an x/z bit is among the inputs of the agreement harness, and it selects the true branch
     #[vp_proof_uf]
-    pub fn canary_ct_rt_cond_known1_with_xz() {
+    pub fn canary_ct_rt_known1_with_xz_reachable() {
         let (c, t, f, cw) = ct_rt_inputs();
         kani::assume(truth(&c) == Some(true) && c.mask_xz != 0);
-        let node = ternary_node(&c, &t, &f, cw, t.signed && f.signed);
-        let r = run(&node);
+        kani::assume(t.width as usize == cw && f.width as usize == cw);
         let e = ct_eval(&c, &t, &f, cw);
-        assert!(same(&r, &e), "Ternary: run time {:?}, compile time {:?}; cond = {:?}, true = {:?}, false = {:?}, width = {}", r, e, c, t, f, cw);
-        std::mem::forget(node);
+        assert!(same(&e, &val(&f)));                  // false whenever the branches differ: compile time takes the TRUE branch here
+    }
+
+    // ---- condition wider than 64 bits (Value::BigUint, real num-bigint compare / and): concrete 65-bit shape, contents symbolic ----------
+    fn big65(lo: u64, hi: bool) -> Box<crate::BigUint> { Box::new(crate::BigUint::from(lo as u128 | ((hi as u128) << 64))) }
+    #[vp_proof_big]
+    pub fn ct_rt_ternary_agree_cond65() {
+        let (p_lo, p_hi, m_lo, m_hi): (u64, bool, u64, bool) = (kani::any(), kani::any(), kani::any(), kani::any());
+        let t = any_v64_sized();
+        let f = any_v64_sized();
+        let cw = t.width as usize;
+        kani::assume(f.width == t.width);                                  // branches already context-wide: no extension involved
+        let c = Value::BigUint(crate::value::ValueBigUint { payload: big65(p_lo, p_hi), mask_xz: big65(m_lo, m_hi), width: 65, signed: false });
+        let node = Expression::Ternary { cond: Box::new(Expression::Value { value: c.clone() }), true_expr: leaf(&t), false_expr: leaf(&f), width: cw, signed: t.signed && f.signed };
+        let r = run(&node);
+        let mut cx = ct::Context;
+        let (x, y, z) = (Box::new(ct::Expression { v: Some(c) }), Box::new(ct::Expression { v: Some(val(&t)) }), Box::new(ct::Expression { v: Some(val(&f)) }));
+        let e = ct::ct_ternary(&x, &y, &z, cw, &mut cx).expect("constant children give a constant");
+        let known1 = (p_lo & !m_lo) != 0 || (p_hi && !m_hi);
+        let expect = if known1 { &t } else { &f };
+        assert!(same(&r, &val(expect)), "Ternary with a 65-bit condition (payload hi/lo = {}/{:#x}, mask_xz hi/lo = {}/{:#x}): run time {:?}, expected {:?}", p_hi, p_lo, m_hi, m_lo, r, expect);
+        assert!(same(&e, &val(expect)), "Ternary with a 65-bit condition (payload hi/lo = {}/{:#x}, mask_xz hi/lo = {}/{:#x}): compile time {:?}, expected {:?}", p_hi, p_lo, m_hi, m_lo, e, expect);
+        std::mem::forget((node, x, y, z));
     }
 
     // ---- vacuity canaries (must FAIL) ----------------------------------------------------------------------------------------
